@@ -245,6 +245,13 @@ theorem edgeCutTopo_rowsOf (m : Coupe.Metrics.Csr) (p : List Nat) :
   simp only [rowsOf_length]
   exact Coupe.Metrics.sumTo_congr (fun v hv => by rw [row_rowsOf m v hv])
 
+/-- The rows of a valid CSR view are sorted (strictly, by sprs' structure check). -/
+theorem sorted_of_csr_valid {m : Coupe.Metrics.Csr} (hv : m.Valid) : SortedRows (rowsOf m) := by
+  intro v hv'
+  rw [rowsOf_length] at hv'
+  rw [row_rowsOf m v hv']
+  exact (hv.2.2.2.2.1 v hv').imp (fun h => Nat.le_of_lt h)
+
 /-! ## loads -/
 
 /-- Entry `k` of the load table is the load of part `k`. -/
@@ -253,6 +260,13 @@ theorem loads_getD (ws : List Int) (ids : List Nat) {k n : Nat} (hk : k < n) :
   unfold Coupe.loads
   rw [List.getD_eq_getElem?_getD, List.getElem?_map, List.getElem?_range hk]
   rfl
+
+/-- C07's cap (`Fm.capOf`) written with `Coupe.load`: the parameter when `max_imbalance` is
+given, else the heavier input part. -/
+def fmCap (capOpt : Option Int) (ws : List Int) (p : List Nat) : Int :=
+  match capOpt with
+  | some c => c
+  | none => max (Coupe.load ws p 0) (Coupe.load ws p 1)
 
 instance (g : Graph) : Decidable (Coupe.ArcSwap.Sym g) := by
   unfold Coupe.ArcSwap.Sym; infer_instance
